@@ -234,7 +234,7 @@ impl DOPRI5 {
             None => {
                 evals.ode += 1;
                 hinit(
-                    f, x, &y, posneg, &k1, &mut k2, &mut k3, 5, h_max, &atol, &rtol,
+                    f, x, &y, posneg, &k1, &mut k2, &mut k3, 5, h_max.min((xend - x).abs()), &atol, &rtol,
                 )
             }
         };
